@@ -133,6 +133,13 @@ def show(v: Any) -> str:
         return "{" + ", ".join(show(x) for x in v[1]) + "}"
     if k == "dict":
         return "{" + ", ".join((f"{show(a)}: {show(b)}" if a is not None else f"**{show(b)}") for a, b in v[1]) + "}"
+    if k == "record":
+        return f"{v[1].split(':')[-1]}(" + ", ".join(f"{n}={show(x)}" for n, x in v[2]) + ")"
+    if k == "obj":
+        return f"<{v[1].split(':')[-1]}#{v[2]}>"
+    if k == "partial":
+        args = [show(v[1])] + [show(a) for a in v[2]] + [f"{kk}={show(vv)}" for kk, vv in v[3]]
+        return f"partial({', '.join(args)})"
     if k == "star":
         return "*" + show(v[1])
     if k == "fstr":
@@ -523,6 +530,8 @@ class Interp:
             return [st.set(key, v)]
         if isinstance(tgt, (ast.Tuple, ast.List)):
             cur = [st]
+            if v[0] == "record":
+                v = ("tuple", tuple(y for _n, y in v[2]))
             for i, e in enumerate(tgt.elts):
                 if isinstance(e, ast.Starred):
                     sub = ("unpack*", v, i)
@@ -1102,7 +1111,12 @@ class Interp:
             for vs, s in cur:
                 if isinstance(x, ast.Starred):
                     for v, s2 in self._ev(x.value, s, out):
-                        nxt.append((vs + [("star", v)], s2))
+                        if v[0] in ("tuple", "list") and not any(y[0] == "star" for y in v[1]):
+                            nxt.append((vs + list(v[1]), s2))  # *(a, b) is a, b
+                        elif v[0] == "record":
+                            nxt.append((vs + [y for _n, y in v[2]], s2))  # *NamedTuple(a, b) is a, b
+                        else:
+                            nxt.append((vs + [("star", v)], s2))
                 else:
                     for v, s2 in self._ev(x, s, out):
                         nxt.append((vs + [v], s2))
@@ -1199,6 +1213,23 @@ class Interp:
         hk = ("H", ("attr", b, name))
         if hk in s.env:
             return s.env[hk]
+        if b[0] == "record":
+            for n_, y in b[2]:
+                if n_ == name:
+                    return y
+            if name == "_fields":
+                return ("tuple", tuple(const(n_) for n_, _y in b[2]))
+            return ("attr", b, name)
+        if b[0] == "obj":
+            # a class-level literal of the object's class (`chunk = 4096` in the class body)
+            try:
+                ci_ = self.p.cls(b[1])
+                r_ = self.p.find_class_attr(ci_, name)
+            except Exception:
+                r_ = None
+            if r_ is not None and isinstance(r_[1], ast.Constant):
+                return const(r_[1].value)
+            return ("attr", b, name)
         if b[0] == "module":
             full = f"{b[1]}.{name}"
             if full in self.p.modules:
@@ -1235,6 +1266,10 @@ class Interp:
                 hk = ("H", ("sub", b, i))
                 if hk in s2.env:
                     res.append((s2.env[hk], s2))
+                elif b[0] == "record" and i[0] == "const" and isinstance(i[1], int) and -len(b[2]) <= i[1] < len(b[2]):
+                    res.append((b[2][i[1]][1], s2))
+                elif b[0] in ("tuple", "list") and i[0] == "const" and isinstance(i[1], int) and not isinstance(i[1], bool) and -len(b[1]) <= i[1] < len(b[1]) and not any(y[0] == "star" for y in b[1]):
+                    res.append((b[1][i[1]], s2))
                 elif b[0] == "dict" and i[0] == "const" and all(k is not None and k[0] == "const" for k, _ in b[1]) and any(k == i for k, _ in b[1]):
                     res.append(([v for k, v in b[1] if k == i][-1], s2))
                 else:
@@ -1554,6 +1589,41 @@ class Interp:
             captured = cv[2]
         elif cv[0] == "attr" and cv[1][0] in ("param",) and cv[1][1] in ("self", "cls"):
             pass
+        # ---- value objects of the repository (see _construct): methods on them, calling them, functools.partial
+        if meta is None and cv[0] == "attr" and cv[1][0] in ("obj", "record"):
+            special = self._record_method(cv[1], cv[2], args, kwargs) if cv[1][0] == "record" else None
+            if special is not None:
+                return [(special, st)]
+            try:
+                m_ = self.p.find_method(self.p.cls(cv[1][1]), cv[2])
+            except Exception:
+                m_ = None
+            if m_ is not None:
+                if "staticmethod" in m_.decorators:
+                    fi, recv = m_, None
+                else:
+                    fi, recv = m_, cv[1]
+                cv = ("func", m_.fq)
+        elif meta is None and cv[0] == "obj":
+            try:
+                m_ = self.p.find_method(self.p.cls(cv[1]), "__call__")
+            except Exception:
+                m_ = None
+            if m_ is not None:
+                fi, recv = m_, cv
+                cv = ("func", m_.fq)
+        elif meta is None and cv[0] == "partial":
+            return self.call(cv[1], tuple(cv[2]) + tuple(args), tuple(cv[3]) + tuple(kwargs), node, st, out, None)
+        elif cv == ("ext", "functools.partial") and args and not any(a[0] == "star" for a in args) and not any(k == "**" for k, _ in kwargs):
+            return [(("partial", args[0], tuple(args[1:]), tuple(kwargs)), st)]
+        elif cv == ("ext", "operator.setitem") and len(args) == 3 and not kwargs:
+            key = ("sub", args[0], args[1])
+            st_ = self.client.on_store(self, key, args[2], node, st)
+            return [(NONE, st_.set(("H", key), args[2]))]
+        elif cv[0] == "cls" and meta is None:
+            built = self._construct(cv, args, kwargs, node, st, out)
+            if built is not None:
+                return built
         if fi is not None:
             self.resolved_calls += 1
         else:
@@ -1574,6 +1644,68 @@ class Interp:
             st2 = self.client.after_call(self, cv, args, kwargs, node, st1)
             res.append((call_v, st2))
         return res
+
+    def _class_kind(self, ci: ClassInfo) -> Optional[str]:
+        """'record' for a NamedTuple class of the repository; 'object' for a private class (`_Name`) that is a plain holder of
+        state with methods (own __init__ or none, no metaclass, bases only object / Generic); None otherwise."""
+        bases = [ast.unparse(b) for b in ci.base_exprs]
+        if any(b.split(".")[-1] == "NamedTuple" for b in bases):
+            return "record"
+        if ci.name.startswith("_") and not ci.name.startswith("__") and not getattr(ci.node, "keywords", None) and not ci.node.decorator_list \
+                and all(b in ("object",) or b.startswith("Generic[") or b.startswith("typing.Generic[") for b in bases):
+            return "object"
+        return None
+
+    def _construct(self, cv: Value, args, kwargs, node: ast.Call, st: State, out: Outcome):
+        """Instances of the repository's small value classes are modelled, not left as opaque call results:
+        NamedTuple(...) is a record whose fields are the arguments; a private holder class is an object whose __init__ is
+        executed (its attribute stores go to the heap), so that replacing a few locals by such an object - or back - does
+        not change what a path rule sees."""
+        try:
+            ci = self.p.cls(cv[1])
+        except Exception:
+            return None
+        kind = self._class_kind(ci)
+        if kind is None or any(a[0] == "star" for a in args) or any(k == "**" for k, _ in kwargs):
+            return None
+        if kind == "record":
+            fields = list(ci.ann.keys())
+            if not fields or len(args) > len(fields):
+                return None
+            vals: Dict[str, Value] = {}
+            for n_, a in zip(fields, args):
+                vals[n_] = a
+            for k, v in kwargs:
+                if k not in fields or k in vals:
+                    return None
+                vals[k] = v
+            for n_ in fields:
+                if n_ not in vals:
+                    d = ci.attrs.get(n_)
+                    if d is None:
+                        return None
+                    dv, _ = self.eval(d, State({}, frozenset(), None))
+                    vals[n_] = dv[0][0]
+            return [(("record", ci.fq, tuple((n_, vals[n_]) for n_ in fields)), st)]
+        obj = ("obj", ci.fq, self.tag(node))
+        init = self.p.find_method(ci, "__init__")
+        if init is None:
+            return [(obj, st)] if not args and not kwargs else None
+        if len(self.frames) > self.client.max_inline_depth + 1:
+            return None
+        gv = ("gen", init.fq, tuple(args), tuple(kwargs), obj, ())
+        res = []
+        for _v, s2 in self.inline_call(init, gv, st, out, node):
+            res.append((obj, s2))
+        return res
+
+    def _record_method(self, rec: Value, name: str, args, kwargs) -> Optional[Value]:
+        if name == "_replace" and not args and all(k in dict(rec[2]) for k, _ in kwargs):
+            upd = dict(kwargs)
+            return ("record", rec[1], tuple((n_, upd.get(n_, y)) for n_, y in rec[2]))
+        if name == "_asdict" and not args and not kwargs:
+            return ("dict", tuple((const(n_), y) for n_, y in rec[2]))
+        return None
 
     def inline_call(self, fi: FuncInfo, gv: Value, st: State, out: Outcome, node: ast.AST):
         _, fq, args, kwargs, recv, captured = gv
